@@ -11,11 +11,16 @@ using namespace yakushima;
 // ops of a cycle body
 //  C create storage "s" and put key "k"     E enter (session stays open)      L leave the open session
 //  R remove "k" (inside the open session, or in a short one)   T epoch tick   G gc tick   D destroy()   P probe (see below)
+//  S remove "k" in a separate short session (never the open one)      J init() without the checks 'I' performs after it
+// The open session (E) reads "k" when it exists and holds the value pointer: until L / fin() the block must stay allocated
+// and keep its bytes, whatever S / R / T / G do meanwhile (C07 inside every cycle of C16).
 struct LifeH : public ykmc::Harness {
     std::string hist; // e.g. "I.CERT.F.I.P.F"
     std::string label;
     std::string problem, problem_sym;
     std::ostringstream log;
+    const char* held = nullptr; // value pointer the open session holds
+    std::string held_bytes;
 
     std::string name() override { return label; }
     int nthreads() override { return 1; }
@@ -28,6 +33,20 @@ struct LifeH : public ykmc::Harness {
         problem.clear();
         problem_sym.clear();
         log.str("");
+        held = nullptr;
+    }
+    void check_held(int cycle, const char* when) {
+        if (held == nullptr) return;
+        auto info = ykalloc::lookup(held);
+        if (info.found && !info.live) {
+            note("life:value_freed_while_session_open", "cycle " + std::to_string(cycle) + ": a value obtained by get in a session that is still open was released " + when);
+            held = nullptr;
+            return;
+        }
+        if (std::string(held, held_bytes.size()) != held_bytes) {
+            note("life:value_changed_while_session_open", "cycle " + std::to_string(cycle) + ": the bytes behind a value pointer of an open session changed " + when);
+            held = nullptr;
+        }
     }
     void note(const std::string& sym, const std::string& d) {
         if (problem.empty()) {
@@ -109,7 +128,17 @@ struct LifeH : public ykmc::Harness {
                     for (auto t : toks) leave(t);
                     break;
                 }
+                case 'J':
+                    // init() and nothing else: the checks that 'I' performs right after init() (one epoch period, entering every
+                    // slot) would repair state that a cycle inherits from its predecessor before the body can observe it
+                    init();
+                    running = true;
+                    cycle++;
+                    open_tok = nullptr;
+                    break;
                 case 'F':
+                    check_held(cycle, "before fin()");
+                    held = nullptr;
                     fin();
                     running = false;
                     open_tok = nullptr;
@@ -127,11 +156,20 @@ struct LifeH : public ykmc::Harness {
                 case 'E':
                     if (open_tok == nullptr) {
                         Token t{};
-                        if (enter(t) == status::OK) open_tok = t;
+                        if (enter(t) == status::OK) {
+                            open_tok = t;
+                            std::pair<char*, std::size_t> g{};
+                            if (get<char>(std::string_view("s"), "k", g) == status::OK && g.first != nullptr) {
+                                held = g.first;
+                                held_bytes.assign(g.first, g.second);
+                            }
+                        }
                     }
                     break;
                 case 'L':
                     if (open_tok != nullptr) {
+                        check_held(cycle, "before its leave()");
+                        held = nullptr;
                         leave(open_tok);
                         open_tok = nullptr;
                     }
@@ -143,9 +181,25 @@ struct LifeH : public ykmc::Harness {
                     if (open_tok == nullptr) leave(t);
                     break;
                 }
-                case 'T': ykmc::tick(0, 1); break;
-                case 'G': ykmc::tick(1, 1); break;
+                case 'S': {
+                    Token t{};
+                    if (enter(t) == status::OK) {
+                        remove(t, std::string_view("s"), "k");
+                        leave(t);
+                    }
+                    check_held(cycle, "by a remove of another session");
+                    break;
+                }
+                case 'T':
+                    ykmc::tick(0, 1);
+                    check_held(cycle, "after an epoch period");
+                    break;
+                case 'G':
+                    ykmc::tick(1, 1);
+                    check_held(cycle, "by a gc pass");
+                    break;
                 case 'D': {
+                    held = nullptr; // destroy() is documented to drop everything at once
                     destroy();
                     std::vector<std::pair<std::string, tree_instance*>> l;
                     if (list_storages(l) != status::WARN_NOT_EXIST) note("life:destroy_left_storage", "a storage is listed after destroy()");
@@ -166,7 +220,10 @@ struct LifeH : public ykmc::Harness {
                 default: break;
             }
         }
-        if (running) fin();
+        if (running) {
+            check_held(cycle, "before fin()");
+            fin();
+        }
     }
 
     void finish(ykmc::ExecResult& r) override {
@@ -196,10 +253,11 @@ int main(int argc, char** argv) {
     bool quick = a.tier == "quick";
     std::vector<hm::Scenario> sc;
     // first-cycle bodies: all sequences over the alphabet up to a length, later cycles: the probe
-    std::string alpha = "CELRTGDP";
+    std::string alpha = "CELRSTGDP";
     std::vector<std::string> bodies = {""};
     size_t maxlen = quick ? 3 : 4;
-    for (size_t len = 1, from = 0; len <= maxlen; ++len) {
+    size_t maxlen_later = maxlen + 1; // "create, hold, remove elsewhere, gc pass" needs four operations
+    for (size_t len = 1, from = 0; len <= maxlen_later; ++len) {
         size_t to = bodies.size();
         for (size_t b = from; b < to; ++b) {
             for (char c : alpha) bodies.push_back(bodies[b] + c);
@@ -208,8 +266,14 @@ int main(int argc, char** argv) {
     }
     std::vector<std::string> hists;
     for (auto& b : bodies) {
-        hists.push_back("I." + b + ".F.I.P.F");
-        if (b.size() <= 2) hists.push_back("I." + b + ".F.I." + b + "P.F.I.P.F");
+        if (b.size() <= maxlen) {
+            hists.push_back("I." + b + ".F.I.P.F");
+            if (b.size() <= 2) hists.push_back("I." + b + ".F.I." + b + "P.F.I.P.F");
+        }
+        // the same body in a LATER cycle, after a cycle whose probe let several epochs pass; bodies that cannot hold a value
+        // across a reclamation (no E, or neither a gc pass nor fin() after it) add nothing over the first family
+        if (!b.empty() && b.find('E') != std::string::npos && (b.size() <= maxlen || (b.find('C') != std::string::npos && b.find('G') != std::string::npos)))
+            hists.push_back("I.P.F.J." + b + ".F");
     }
     for (auto& hst : hists) {
         hm::Scenario s;
